@@ -108,6 +108,17 @@ theorem state_result (ev : Option NType) (rec : Bool) (p r : Bool) (sbs hb : SSt
 
 /-! ### The suppressed-notification handler -/
 
+/-- The code's hand-written clamp (checkable-notification.cpp:331-338) is the property's "imminent". -/
+theorem soonThreshold_eq (i : Int) : soonThreshold i = min 60000000 (max 0 (i - 10000000)) := by
+  unfold soonThreshold
+  simp only []
+  omega
+
+theorem imminent_eq_likelySoon (e : FEnv) : imminent e = e.likelySoon := by
+  unfold imminent FEnv.likelySoon
+  rw [soonThreshold_eq]
+  cases e.activeChecks <;> simp
+
 theorem fireState_shape (c : Cfg) (s : St) (e : FEnv) : ∀ n ∈ (fireState c s e).2, isFlap n = false := by
   unfold fireState
   intro n hn
@@ -148,10 +159,10 @@ theorem fire_state_spec (c : Cfg) (s : St) (e : FEnv) (sp : SpecSt)
   obtain ⟨sps, spt, spp, spf⟩ := sp
   simp only at hs ht hp
   subst hs ht hp
-  obtain ⟨e1, e2, e3, e4, e5, e6, e7⟩ := e
   cases hd : (proj c.kind core.state != proj c.kind sbs) <;> cases hty : core.stype <;>
-    cases p <;> cases r <;> cases e1 <;> cases e2 <;> cases e3 <;> cases e6 <;> cases e7 <;>
-    simp_all [fireState, specFireState, pendOf, Sup.hasState, releaseNow, differs]
+    cases p <;> cases r <;> cases h1 : e.paused <;> cases h2 : e.enabled <;> cases h3 : e.stateSuppressed <;>
+    cases h6 : e.likelySoon <;> cases h7 : e.parentRecent <;>
+    simp_all [fireState, specFireState, pendOf, Sup.hasState, releaseNow, differs, imminent_eq_likelySoon]
 
 theorem fire_flap_spec (s : St) (e : FEnv) (sp : SpecSt)
     (hs : sp.state = s.core.state)
@@ -165,8 +176,8 @@ theorem fire_flap_spec (s : St) (e : FEnv) (sp : SpecSt)
   obtain ⟨sps, spt, spp, spf⟩ := sp
   simp only at hs hf hx
   subst hs hf
-  obtain ⟨e1, e2, e3, e4, e5, e6, e7⟩ := e
-  cases s3 <;> cases s4 <;> cases e1 <;> cases e2 <;> cases e4 <;> cases e5 <;> cases e6 <;> cases e7 <;>
-    simp_all [fireFlapOne, specFireFlap, flapOf]
+  cases s3 <;> cases s4 <;> cases h1 : e.paused <;> cases h2 : e.enabled <;> cases h4 : e.inDowntime <;>
+    cases h5 : e.isFlapping <;> cases h6 : e.likelySoon <;> cases h7 : e.parentRecent <;>
+    simp_all [fireFlapOne, specFireFlap, flapOf, imminent_eq_likelySoon]
 
 end Icinga.C02
